@@ -49,6 +49,19 @@ import (
 // The number of sweeps an iterative dataflow solution of the reference's own
 // (ref.DomIter) needs, the depth of the tree idom* and the weight of the
 // predecessor lists are recorded as classes.
+//
+// Round 4 (results must stay valid after later calls): a DomTree is a
+// graph.BiGraph, so the slices Out/In hand out are collected for EVERY node
+// first (nothing copied) and compared only then, and once more after the
+// second round of questions; the library's own PreOrder and PostOrder are run
+// over the DomTree (through a recording graph.Graph that copies, at the moment
+// of the call, the list the tree reports) and compared with the definitional
+// depth-first orders (ref.DFSWalk) of idom*'s inversion in that adjacency
+// order; on a sample of cases (mode bit c19Recheck) the slice IDom returned for
+// the first root, both frontier results and the tree (its held slices and fresh
+// answers) are compared once more after the LAST library call of the case,
+// with a full IDom/DomFrontier/Dom round on a second, different graph in
+// between (results recycled through pools or shared buffers).
 
 type c19Case struct {
 	Out  [][]int `json:"out"`          // successor lists, order and multiplicity as handed to the library
@@ -67,7 +80,11 @@ type c19Case struct {
 	// that very slice. Bit c19ValueGraph: the library sees the graph through
 	// a second BiGraph implementation (a struct value holding slices, not a
 	// pointer; empty lists are nil; every call of In/Out returns a fresh copy
-	// of the list).
+	// of the list). Bit c19Recheck: what the library returned for the first
+	// root (idom slice, frontier lists, tree) is held and compared once more
+	// after the last call of the case, a round of calls on a second graph (a
+	// hub pointing at every node of a ring, one node more than this graph at
+	// least) made in between.
 	Mode int `json:"mode,omitempty"`
 }
 
@@ -79,7 +96,17 @@ const (
 
 	c19CopyIdom   = 1
 	c19ValueGraph = 2
+	c19Recheck    = 4
 )
+
+// c19RecheckOf: the recheck bit for every 16th index (no random draw, so the
+// random streams of the cases are what they were).
+func c19RecheckOf(h uint) int {
+	if (h*2654435761+0x51ed)>>11&15 == 0 {
+		return c19Recheck
+	}
+	return 0
+}
 
 // c19ModeOf derives a mode from a hash: the idom copy on every other case,
 // the value-type graph on every fourth.
@@ -88,6 +115,9 @@ func c19ModeOf(h uint) int {
 	m := int(h >> 9 & 1)
 	if h>>13&3 == 0 {
 		m |= c19ValueGraph
+	}
+	if h>>17&15 == 0 {
+		m |= c19Recheck
 	}
 	return m
 }
@@ -211,6 +241,201 @@ type c19Scratch struct {
 	eFlat     []int
 	eOut, eIn [][]int
 	slot      *c19Slot
+	// round 4: the slices a DomTree handed out (as handed out, nothing copied),
+	// the recording graph the traversals run over, the definitional walk, what
+	// is held of the first root's results until the end of the case, and the
+	// second graph
+	tOuts, tIns      [][]int
+	tIdoms           []int
+	rec              c19Rec
+	walk             ref.DFSWalk
+	walkFn           func(int) []int
+	held             c19Held
+	holdCp, holdArg  []int
+	g2               c19G
+	g2Flat           []int
+	g2Out, g2In      [][]int
+	preWant, postGot []int
+}
+
+// c19Rec is the graph.Graph the library's traversals see a DomTree through: it
+// passes every question on to the tree and returns the tree's own slice, and
+// copies, at the moment of the call, the list the tree reports (the adjacency
+// order that traversal was given). A node asked again whose list then reads
+// differently makes the adjacency order ambiguous (unstable).
+type c19Rec struct {
+	t        *graphalg.DomTree
+	flat     []int
+	start    []int // -1: not asked
+	ln       []int
+	unstable bool
+}
+
+var _ graph.Graph = (*c19Rec)(nil)
+
+func (r *c19Rec) reset(t *graphalg.DomTree, n int) {
+	r.t, r.unstable = t, false
+	if cap(r.start) < n {
+		r.start, r.ln = make([]int, n), make([]int, n)
+	}
+	r.start, r.ln, r.flat = r.start[:n], r.ln[:n], r.flat[:0]
+	for i := range r.start {
+		r.start[i] = -1
+	}
+}
+func (r *c19Rec) NumNodes() int { return r.t.NumNodes() }
+func (r *c19Rec) Out(v int) []int {
+	l := r.t.Out(v)
+	if v >= 0 && v < len(r.start) {
+		if r.start[v] < 0 {
+			r.start[v], r.ln[v] = len(r.flat), len(l)
+			r.flat = append(r.flat, l...)
+		} else if !eqIntsC19(r.flat[r.start[v]:r.start[v]+r.ln[v]], l) {
+			r.unstable = true
+		}
+	}
+	return l
+}
+
+// walkList is the adjacency list the definitional walk uses for v: what the
+// tree told the library's traversal about v, and the children of v in idom*
+// for a node the traversal never asked about.
+func (sc *c19Scratch) walkList(v int) []int {
+	if l, asked := sc.rec.list(v); asked {
+		return l
+	}
+	return sc.kidsFlat[sc.kidsStart[v]:sc.kidsStart[v+1]]
+}
+
+// list is what the traversal was told about v (nil, false if it never asked).
+func (r *c19Rec) list(v int) ([]int, bool) {
+	if r.start[v] < 0 {
+		return nil, false
+	}
+	return r.flat[r.start[v] : r.start[v]+r.ln[v]], true
+}
+
+func eqIntsC19(a, b []int) bool {
+	if len(a) != len(b) {
+		return false
+	}
+	for i := range a {
+		if a[i] != b[i] {
+			return false
+		}
+	}
+	return true
+}
+
+// c19Held is what a case keeps of the results for its first root until after
+// its last library call: the very slices the library returned (never copied)
+// next to private copies of the reference values they were judged against.
+type c19Held struct {
+	on       bool
+	root     int
+	carve    bool
+	wantIdom []int
+	reach    []bool
+	wantDF   [][]int
+	dfFlat   []int
+	idom     []int      // the slice IDom returned (nil: not held, it was wrong or never returned)
+	df       [2][][]int // what DomFrontier(idom) and DomFrontier(nil) returned (nil: not held)
+	tree     *graphalg.DomTree
+	what     string
+	outs     [][]int // the slices the tree handed out in the first round of questions
+	ins      [][]int
+}
+
+func (h *c19Held) start(want *c19Want, root int, carve bool) {
+	n := len(want.idom)
+	h.on, h.root, h.carve = true, root, carve
+	h.idom, h.df[0], h.df[1], h.tree = nil, nil, nil, nil
+	h.wantIdom = append(h.wantIdom[:0], want.idom...)
+	h.reach = append(h.reach[:0], want.reach...)
+	if cap(h.wantDF) < n {
+		h.wantDF = make([][]int, n)
+	}
+	h.wantDF = h.wantDF[:n]
+	h.dfFlat = h.dfFlat[:0]
+	tot := 0
+	for _, l := range want.df {
+		tot += len(l)
+	}
+	if cap(h.dfFlat) < tot {
+		h.dfFlat = make([]int, 0, tot)
+	}
+	for v, l := range want.df {
+		a := len(h.dfFlat)
+		h.dfFlat = append(h.dfFlat, l...)
+		h.wantDF[v] = h.dfFlat[a:len(h.dfFlat):len(h.dfFlat)]
+	}
+}
+
+// dfCompare compares the frontier lists df with the definition's (as sets; the
+// root's membership is left out when carve): the first reachable node whose set
+// differs, or -1; short says that df has no entry for that node.
+func (sc *c19Scratch) dfCompare(w *mon.W, df, wantDF [][]int, reach []bool, root int, carve, note bool) (x int, short bool) {
+	for x := range wantDF {
+		if !reach[x] {
+			continue // entries of unreachable nodes are not claimed
+		}
+		if x >= len(df) {
+			return x, true
+		}
+		got, dup := sc.sortedSet(df[x])
+		if dup && note {
+			w.Note("frontier-list-with-duplicates(not judged)")
+		}
+		wl := wantDF[x]
+		i, j := 0, 0
+		for i < len(got) || j < len(wl) {
+			if carve && i < len(got) && got[i] == root {
+				i++
+				continue
+			}
+			if carve && j < len(wl) && wl[j] == root {
+				j++
+				continue
+			}
+			if i >= len(got) || j >= len(wl) || got[i] != wl[j] {
+				return x, false
+			}
+			i++
+			j++
+		}
+	}
+	return -1, false
+}
+
+// secondGraph builds the graph of the in-between round: a hub (node k) that
+// points at every node of the ring 0->1->...->k-1->0. Every ring node has the
+// hub and its ring predecessor as predecessors, so the hub is the immediate
+// dominator of every ring node (idom = k everywhere, -1 for the hub), the
+// frontier of ring node v is {(v+1) mod k} (v dominates only itself; for k = 1
+// the self-loop makes it {0}) and the frontier of the hub is empty.
+func (sc *c19Scratch) secondGraph(k int) {
+	n2 := k + 1
+	if cap(sc.g2Flat) < 4*k {
+		sc.g2Flat = make([]int, 4*k)
+	}
+	if cap(sc.g2Out) < n2 {
+		sc.g2Out, sc.g2In = make([][]int, n2), make([][]int, n2)
+	}
+	sc.g2Out, sc.g2In = sc.g2Out[:n2], sc.g2In[:n2]
+	f := sc.g2Flat[:4*k]
+	for v := 0; v < k; v++ {
+		f[v] = (v + 1) % k
+		sc.g2Out[v] = f[v : v+1 : v+1]
+		f[k+v] = v
+		f[2*k+2*v], f[2*k+2*v+1] = k, (v+k-1)%k
+		if v%2 == 1 {
+			f[2*k+2*v], f[2*k+2*v+1] = f[2*k+2*v+1], k
+		}
+		sc.g2In[v] = f[2*k+2*v : 2*k+2*v+2 : 2*k+2*v+2]
+	}
+	sc.g2Out[k] = f[k : 2*k : 2*k]
+	sc.g2In[k] = f[:0:0]
+	sc.g2.out, sc.g2.in = sc.g2Out, sc.g2In
 }
 
 var c19Pool = sync.Pool{New: func() any { return &c19Scratch{slot: c19NewSlot()} }}
@@ -259,6 +484,8 @@ func c19Watchdog() {
 	limit := 300
 	if v, err := strconv.Atoi(os.Getenv("VERIF_C19_HANG_S")); err == nil && v > 0 {
 		limit = v
+	} else if v, err := strconv.Atoi(os.Getenv("VERIF_HANG_S")); err == nil && v > 0 && v < limit {
+		limit = v // the general override of mon's watchdog shortens this one too
 	}
 	const tick = 2
 	type seen struct {
@@ -438,7 +665,7 @@ func c19Transpose(out [][]int) [][]int {
 // transpose of Out as a multiset.
 func c19WellFormed(c c19Case) bool {
 	n := len(c.Out)
-	if n == 0 || c.Root < 0 || c.Root >= n || c.Layout < c19Exact || c.Layout > c19Slack || c.Mode < 0 || c.Mode > 3 {
+	if n == 0 || c.Root < 0 || c.Root >= n || c.Layout < c19Exact || c.Layout > c19Slack || c.Mode < 0 || c.Mode > 7 {
 		return false
 	}
 	for _, r := range c.Roots {
@@ -492,6 +719,9 @@ func c19Describe(c c19Case) string {
 	}
 	if c.Mode&c19CopyIdom != 0 {
 		extra += " [DomFrontier and Dom get a caller-made copy of the idom slice, with spare capacity]"
+	}
+	if c.Mode&c19Recheck != 0 {
+		extra += " [results for the first root held and compared again after the last call of the case, a round of calls on a second graph in between]"
 	}
 	if len(c.Out) <= 12 {
 		return fmt.Sprintf("out=%v in=%v root=%d%s", c.Out, c.In, c.Root, extra)
@@ -561,16 +791,16 @@ func (sc *c19Scratch) children(idom []int) {
 
 // spareCopy returns a copy of idom in a buffer of the caller: length n, and
 // behind it 1..4 or n+3 spare cells holding junk (canaries, zeros or -1).
-func (sc *c19Scratch) spareCopy(idom []int, root int) []int {
+func (sc *c19Scratch) spareCopy(idom []int, root int, into *[]int) []int {
 	n := len(idom)
 	extra := 1 + (n+root)%4
 	if (n+2*root)%3 == 0 {
 		extra = n + 3
 	}
-	if cap(sc.idomCp) < n+extra {
-		sc.idomCp = make([]int, 2*n+8)
+	if cap(*into) < n+extra {
+		*into = make([]int, 2*n+8)
 	}
-	buf := sc.idomCp[:n+extra]
+	buf := (*into)[:n+extra]
 	copy(buf, idom)
 	junk := [3]int{c19Canary, 0, -1}[(n+root)%3]
 	for i := n; i < len(buf); i++ {
@@ -652,7 +882,9 @@ func c19Judge(w *mon.W, c c19Case, sc *c19Scratch, distinct bool) {
 	default:
 		w.Hit("layout-exact-capacity")
 	}
-	copyIdom, valueGraph := c.Mode&c19CopyIdom != 0, c.Mode&c19ValueGraph != 0
+	copyIdom, valueGraph, recheck := c.Mode&c19CopyIdom != 0, c.Mode&c19ValueGraph != 0, c.Mode&c19Recheck != 0
+	sc.held.on = false
+	w.HitIf(recheck, "recheck:first-root's-results-compared-again-after-the-last-call(second-graph-in-between)")
 	w.HitIf(copyIdom, "idom-arg:caller-copy-with-spare-capacity")
 	w.HitIf(valueGraph, "bigraph:value-type,nil-empty-lists,fresh-copies")
 	if len(c.Roots) > 0 {
@@ -788,6 +1020,17 @@ func c19Judge(w *mon.W, c c19Case, sc *c19Scratch, distinct bool) {
 	}
 
 	var reachSeen uint64 // nodes reachable from some earlier root of this case (n <= 64)
+
+	// stale records a result that was right when the library returned it and
+	// reads differently after later library calls. Such a tree recycles
+	// storage that is still in use: under the 16 workers further calls race
+	// with each other (a walk over a half-overwritten idom need not end), the
+	// verdict is settled, so each of these weighs 1000 towards the give-up
+	// count.
+	stale := func(kind string, msg func() string) {
+		c19TotalViol.Add(999)
+		viol(kind, msg)
+	}
 
 	runRoot := func(root int) {
 		curRoot = root
@@ -936,6 +1179,15 @@ func c19Judge(w *mon.W, c c19Case, sc *c19Scratch, distinct bool) {
 			w.HitIf(d >= 1000, "dominator-tree-depth>=1000")
 		}
 		sc.children(want.idom)
+		// held: the results for the first root of a recheck case are kept until
+		// after the last call of the case; the buffers of the caller that a
+		// tree may go on referring to are then not reused by later queries
+		holdThis := recheck && step == 0
+		cpBuf, argBuf := &sc.idomCp, &sc.idomArg
+		if holdThis {
+			sc.held.start(want, root, rootIn == 1)
+			cpBuf, argBuf = &sc.holdCp, &sc.holdArg
+		}
 		if c.Layout != c19Exact {
 			// the cell that follows the root's predecessor list in the shared
 			// array: for the back-to-back layout it is the first predecessor of
@@ -987,11 +1239,15 @@ func c19Judge(w *mon.W, c c19Case, sc *c19Scratch, distinct bool) {
 			}
 			idomOK = bad == 0
 			w.Err("IDom-entries-differing", float64(bad), 0.5)
+			if holdThis && idomOK {
+				sc.held.idom = idom
+			}
 		}
 
 		// judgeDom calls Dom(arg) and compares the tree with the inversion of
-		// idom*. what describes arg for the message.
-		judgeDom := func(arg []int, kind, what string) {
+		// idom*. what describes arg for the message. hold: keep the tree (and
+		// the slices it handed out) for the recheck at the end of the case.
+		judgeDom := func(arg []int, kind, what string, hold bool) {
 			var tree *graphalg.DomTree
 			w.Eval("Dom")
 			if p, v := mon.Call(inflight("Dom", func() { tree = graphalg.Dom(arg) })); p {
@@ -1004,9 +1260,59 @@ func c19Judge(w *mon.W, c c19Case, sc *c19Scratch, distinct bool) {
 				viol(kind, func() string { return fmt.Sprintf("Dom(%s) returned nil; idom*=%v", what, c19Short(want.idom)) })
 				return
 			}
+			// classes of the tree idom* (reference side): how many nodes have
+			// children at all (two child lists alive at a time), and whether a
+			// node with several children has a child with children (a top-down
+			// walk asks for the inner list while it is half-way through the outer)
+			inner, fork := 0, false
+			for v := 0; v < n; v++ {
+				a, b := sc.kidsStart[v], sc.kidsStart[v+1]
+				if b > a {
+					inner++
+				}
+				if b-a >= 2 && !fork {
+					for _, ch := range sc.kidsFlat[a:b] {
+						if sc.kidsStart[ch+1] > sc.kidsStart[ch] {
+							fork = true
+							break
+						}
+					}
+				}
+			}
+			w.HitIf(inner >= 2, "domtree:>=2-nodes-with-children(child-lists-held-across-later-Out-calls)")
+			w.HitIf(fork, "domtree:node-with>=2-children-one-of-them-with-children(walk-holds-a-list-across-Out-calls)")
+
+			cmpOut := func(v int, got []int) string {
+				kids := sc.kidsFlat[sc.kidsStart[v]:sc.kidsStart[v+1]]
+				bad := len(got) != len(kids) // shorter: a child is missing; longer: a stranger or a duplicate
+				if !bad && len(got) == 1 {
+					bad = got[0] != kids[0]
+				} else if !bad && len(got) > 1 {
+					set, dup := sc.sortedSet(got)
+					bad = dup
+					for i := 0; !bad && i < len(set); i++ {
+						bad = set[i] != kids[i]
+					}
+				}
+				if bad {
+					return fmt.Sprintf("Out(%d)=%v, want the children %v", v, got, kids)
+				}
+				return ""
+			}
+			cmpIn := func(v int, gotIn []int) string {
+				if want.idom[v] >= 0 {
+					if len(gotIn) != 1 || gotIn[0] != want.idom[v] {
+						return fmt.Sprintf("In(%d)=%v, want [%d]", v, gotIn, want.idom[v])
+					}
+				} else if !(len(gotIn) == 0 || (len(gotIn) == 1 && gotIn[0] == -1)) {
+					// a node without immediate dominator: no parent, or the -1 marker
+					return fmt.Sprintf("In(%d)=%v for a node without immediate dominator", v, gotIn)
+				}
+				return ""
+			}
 			msg := ""
 			// one query of v: the three accessors in the given order, each answer
-			// judged against the inversion of idom*
+			// judged at once against the inversion of idom*
 			query := func(v int, rev bool) string {
 				for k := 0; k < 3; k++ {
 					q := k
@@ -1019,47 +1325,69 @@ func c19Judge(w *mon.W, c c19Case, sc *c19Scratch, distinct bool) {
 							return fmt.Sprintf("IDom(%d)=%d, want %d", v, d, want.idom[v])
 						}
 					case 1:
-						kids := sc.kidsFlat[sc.kidsStart[v]:sc.kidsStart[v+1]]
-						gotOut := tree.Out(v)
-						set, dup := sc.sortedSet(gotOut)
-						bad := dup || len(set) != len(kids)
-						for i := 0; !bad && i < len(set); i++ {
-							bad = set[i] != kids[i]
-						}
-						if bad {
-							return fmt.Sprintf("Out(%d)=%v, want the children %v", v, gotOut, kids)
+						if m := cmpOut(v, tree.Out(v)); m != "" {
+							return m
 						}
 					default:
-						gotIn := tree.In(v)
-						if want.idom[v] >= 0 {
-							if len(gotIn) != 1 || gotIn[0] != want.idom[v] {
-								return fmt.Sprintf("In(%d)=%v, want [%d]", v, gotIn, want.idom[v])
-							}
-						} else if !(len(gotIn) == 0 || (len(gotIn) == 1 && gotIn[0] == -1)) {
-							// a node without immediate dominator: no parent, or the -1 marker
-							return fmt.Sprintf("In(%d)=%v for a node without immediate dominator", v, gotIn)
+						if m := cmpIn(v, tree.In(v)); m != "" {
+							return m
 						}
 					}
 				}
 				return ""
 			}
+			if cap(sc.tOuts) < n {
+				sc.tOuts, sc.tIns, sc.tIdoms = make([][]int, n), make([][]int, n), make([]int, n)
+			}
+			outs, ins, ids := sc.tOuts[:n], sc.tIns[:n], sc.tIdoms[:n]
+			// collected looks at the slices the tree handed out in the first round
+			collected := func(when string) bool {
+				for v := 0; v < n; v++ {
+					m := ""
+					if ids[v] != want.idom[v] {
+						m = fmt.Sprintf("IDom(%d)=%d, want %d", v, ids[v], want.idom[v])
+					} else if m = cmpOut(v, outs[v]); m == "" {
+						m = cmpIn(v, ins[v])
+					}
+					if m != "" {
+						msg = when + m
+						return false
+					}
+				}
+				return true
+			}
+			numOK := false
 			p, v := mon.Call(func() {
 				if nn := tree.NumNodes(); nn != n {
 					msg = fmt.Sprintf("NumNodes()=%d, want %d", nn, n)
 					return
 				}
+				numOK = true
+				// first round: every node asked (IDom, Out, In, ascending); the
+				// slices are kept as they were handed out - nothing is copied -
+				// and looked at only after the last of these calls, as any user
+				// of a graph.BiGraph may do (the library's own traversals hold
+				// the list of one node while they ask for the next)
 				for v := 0; v < n; v++ {
-					if msg = query(v, false); msg != "" {
-						return
-					}
+					ids[v] = tree.IDom(v)
+					outs[v] = tree.Out(v)
+					ins[v] = tree.In(v)
+				}
+				if !collected("every node asked once (IDom, Out, In in ascending order), the slices kept as handed out (nothing copied) and looked at after the last of these calls: ") {
+					return
 				}
 				// the same tree asked a second time, nodes and accessors in the
-				// opposite order: the answers must still be the inversion of idom*
+				// opposite order, every answer looked at at once: the answers
+				// must still be the inversion of idom*
 				for v := n - 1; v >= 0; v-- {
 					if m := query(v, true); m != "" {
 						msg = "asked a second time (nodes in descending order, accessors in the order In, Out, IDom), after every node had been asked once: " + m
 						return
 					}
+				}
+				// and the slices of the first round must still be
+				if !collected("the slices handed out in the first round of questions, looked at again after the second round of questions: ") {
+					return
 				}
 				if nn := tree.NumNodes(); nn != n {
 					msg = fmt.Sprintf("NumNodes()=%d when asked a second time, want %d", nn, n)
@@ -1071,10 +1399,79 @@ func c19Judge(w *mon.W, c c19Case, sc *c19Scratch, distinct bool) {
 				viol("panic-"+kind+"Tree", func() string {
 					return fmt.Sprintf("inspecting Dom(%s) panicked: %v; idom*=%v; %s", what, v, c19Short(want.idom), c19Describe(c))
 				})
+				return
 			} else if msg != "" {
 				viol(kind, func() string {
 					return fmt.Sprintf("Dom(%s): %s; idom*=%v%s; %s", what, msg, c19Short(want.idom), ctx(false), c19Describe(c))
 				})
+			} else if hold {
+				h := &sc.held
+				h.tree, h.what = tree, what
+				h.outs, h.ins = append(h.outs[:0], outs...), append(h.ins[:0], ins...)
+			}
+			// Traversals: over every tree in which a node with several children
+			// has a child with children (only there does a walk come back to a
+			// list it holds after it has asked for another non-empty one), and
+			// over every fourth of the others (chains, stars, forests of them).
+			if !numOK || !(fork || (n+root+step)%4 == 0) {
+				return
+			}
+			w.Hit("domtree-traversal:PreOrder,PostOrder-over-the-DomTree")
+			// the library's own traversals over the tree (a DomTree is a
+			// graph.Graph), from the root: the depth-first pre- and post-order
+			// of idom*'s inversion, children in the order the tree reported
+			// them to that very traversal
+			rec := &sc.rec
+			for t := 0; t < 2; t++ {
+				name, ord := "PreOrder", "pre"
+				if t == 1 {
+					name, ord = "PostOrder", "post"
+				}
+				rec.reset(tree, n)
+				var got []int
+				w.Eval(name + "(DomTree)")
+				if p, v := mon.Call(inflight(name+"(DomTree)", func() {
+					if t == 0 {
+						got = graphalg.PreOrder(rec, root)
+					} else {
+						got = graphalg.PostOrder(rec, root)
+					}
+				})); p {
+					viol("panic-"+kind+"-traversal", func() string {
+						return fmt.Sprintf("%s(Dom(%s), %d) panicked: %v; idom*=%v; %s", name, what, root, v, c19Short(want.idom), c19Describe(c))
+					})
+					continue
+				}
+				tmsg := ""
+				for v := 0; v < n && tmsg == ""; v++ {
+					if l, asked := rec.list(v); asked {
+						if m := cmpOut(v, l); m != "" {
+							tmsg = "asked by the traversal, the tree reported " + m
+						}
+					}
+				}
+				if tmsg == "" && rec.unstable {
+					w.Note("domtree-reports-a-node's-children-in-different-orders(traversal order not judged)")
+					continue
+				}
+				if tmsg == "" {
+					if sc.walkFn == nil {
+						sc.walkFn = sc.walkList
+					}
+					sc.walk.Run(n, root, sc.walkFn)
+					wantOrd := sc.walk.Pre
+					if t == 1 {
+						wantOrd = sc.walk.Post
+					}
+					if !eqIntsC19(got, wantOrd) {
+						tmsg = fmt.Sprintf("returned %v; the depth-first %s-order of the tree idom* (children in the order in which the tree reported them to this traversal) is %v", c19Short(got), ord, c19Short(wantOrd))
+					}
+				}
+				if tmsg != "" {
+					viol(kind+"-traversal", func() string {
+						return fmt.Sprintf("%s(Dom(%s), %d): %s; idom*=%v%s; %s", name, what, root, tmsg, c19Short(want.idom), ctx(false), c19Describe(c))
+					})
+				}
 			}
 		}
 
@@ -1096,13 +1493,26 @@ func c19Judge(w *mon.W, c c19Case, sc *c19Scratch, distinct bool) {
 				case idomOK:
 					// what a caller does who keeps the result in a buffer of its
 					// own: same values, another array, spare capacity behind it
-					arg, pipeline = sc.spareCopy(idom, root), true
+					arg, pipeline = sc.spareCopy(idom, root, cpBuf), true
 					w.Note("pipeline:IDom->caller's-copy->DomFrontier->Dom")
+					if !eqIntsC19(arg, want.idom) {
+						// it was idom* a moment ago and this worker has made no
+						// call since: storage recycled while in use
+						now := append([]int(nil), arg...)
+						stale("IDom-result-changed-by-later-calls", func() string {
+							return fmt.Sprintf("the slice IDom(g, %d) returned was idom*=%v when it was returned and read %v when the caller copied it (no call made by this caller in between; other goroutines call IDom on other graphs)%s; %s", root, c19Short(want.idom), c19Short(now), ctx(false), c19Describe(c))
+						})
+						if holdThis {
+							sc.held.idom = nil
+						}
+						copy(arg, want.idom)
+						pipeline = false
+					}
 				case copyIdom:
-					arg = sc.spareCopy(want.idom, root)
+					arg = sc.spareCopy(want.idom, root, cpBuf)
 				default:
-					sc.idomArg = append(sc.idomArg[:0], want.idom...)
-					arg = sc.idomArg
+					*argBuf = append((*argBuf)[:0], want.idom...)
+					arg = *argBuf
 				}
 			} else {
 				op, key = "DomFrontier(nil)", "graph-calls-over-budget/DomFrontier(nil)"
@@ -1127,66 +1537,37 @@ func c19Judge(w *mon.W, c c19Case, sc *c19Scratch, distinct bool) {
 					}
 				}
 				if changed < 0 {
-					judgeDom(arg, "Dom", src)
+					judgeDom(arg, "Dom", src, holdThis)
 				} else {
 					// not judged by itself; the tree the caller then builds from
 					// its slice is
 					w.Note("DomFrontier-changed-its-idom-argument")
 					at, now := changed, arg[changed]
-					judgeDom(arg, "pipeline-Dom", fmt.Sprintf("%s after DomFrontier(g, %d, idom) on it, which left idom[%d]=%d where it was %d", src, root, at, now, want.idom[at]))
-					sc.idomArg = append(sc.idomArg[:0], want.idom...)
-					judgeDom(sc.idomArg, "Dom", "idom*")
+					judgeDom(arg, "pipeline-Dom", fmt.Sprintf("%s after DomFrontier(g, %d, idom) on it, which left idom[%d]=%d where it was %d", src, root, at, now, want.idom[at]), false)
+					*argBuf = append((*argBuf)[:0], want.idom...)
+					judgeDom(*argBuf, "Dom", "idom*", holdThis)
 				}
 			}
 			if !ok {
 				continue
 			}
 			bad := 0
-			for x := 0; x < n; x++ {
-				if !want.reach[x] {
-					continue // entries of unreachable nodes are not claimed
+			if x, short := sc.dfCompare(w, df, want.df, want.reach, root, carve, true); x >= 0 && short {
+				bad = 1
+				viol(kindOf(pre, "DomFrontier-len"), func() string {
+					return fmt.Sprintf("%s returned %d sets, reachable node %d has none%s; %s", op, len(df), x, ctx(pre), c19Describe(c))
+				})
+			} else if x >= 0 {
+				bad = 1
+				note := ""
+				if carve {
+					note = " (root has exactly one in-edge: its membership is not compared)"
 				}
-				if x >= len(df) {
-					bad++
-					viol(kindOf(pre, "DomFrontier-len"), func() string {
-						return fmt.Sprintf("%s returned %d sets, reachable node %d has none%s; %s", op, len(df), x, ctx(pre), c19Describe(c))
-					})
-					break
-				}
-				got, dup := sc.sortedSet(df[x])
-				if dup {
-					w.Note("frontier-list-with-duplicates(not judged)")
-				}
-				wl := want.df[x]
-				ok := true
-				i, j := 0, 0
-				for i < len(got) || j < len(wl) {
-					if carve && i < len(got) && got[i] == root {
-						i++
-						continue
-					}
-					if carve && j < len(wl) && wl[j] == root {
-						j++
-						continue
-					}
-					if i >= len(got) || j >= len(wl) || got[i] != wl[j] {
-						ok = false
-						break
-					}
-					i++
-					j++
-				}
-				if !ok {
-					bad++
-					note := ""
-					if carve {
-						note = " (root has exactly one in-edge: its membership is not compared)"
-					}
-					viol(kindOf(pre, "DomFrontier"), func() string {
-						return fmt.Sprintf("%s[%d]=%v, definition gives %v%s; idom*=%v%s; %s", op, x, df[x], wl, note, c19Short(want.idom), ctx(pre), c19Describe(c))
-					})
-					break
-				}
+				viol(kindOf(pre, "DomFrontier"), func() string {
+					return fmt.Sprintf("%s[%d]=%v, definition gives %v%s; idom*=%v%s; %s", op, x, df[x], want.df[x], note, c19Short(want.idom), ctx(pre), c19Describe(c))
+				})
+			} else if holdThis {
+				sc.held.df[pass] = df
 			}
 			w.Err("DomFrontier-sets-differing", float64(bad), 0.5)
 		}
@@ -1217,6 +1598,185 @@ func c19Judge(w *mon.W, c c19Case, sc *c19Scratch, distinct bool) {
 			step++
 			w.Note("query-after-modification-with-another-root")
 			runRoot(r)
+		}
+	}
+
+	// ---- recheck: what the library returned for the first root, once more,
+	// after the last library call of the case
+	h := &sc.held
+	if !recheck || !h.on || tripped || c19TotalViol.Load() > c19GiveUp {
+		return
+	}
+	// in between: a full round on a second, different and bigger graph (see
+	// secondGraph for its dominators in closed form)
+	k := n + c.Root%3
+	hub := k
+	sc.secondGraph(k)
+	g2 := &sc.g2
+	budget2 := c19StepBudget(k + 1)
+	desc2 := func() string {
+		return fmt.Sprintf("second graph of the case: %d nodes, hub %d pointing at every node of the ring 0->1->...->%d->0, root %d; first graph: %s", k+1, hub, k-1, hub, c19Describe(c))
+	}
+	call2 := func(op string, fn func()) bool {
+		g2.calls, g2.budget = 0, budget2
+		w.Eval(op)
+		p, v := mon.Call(inflight(op, fn))
+		if !p {
+			return true
+		}
+		if b, ok := v.(c19Budget); ok {
+			tripped = true
+			c19TotalViol.Add(39)
+			viol("nontermination-second-graph", func() string {
+				return fmt.Sprintf("%s made %d calls into the graph, budget %d: not terminating; %s", op, b.Calls, b.Budget, desc2())
+			})
+		} else {
+			viol("panic-second-graph", func() string { return fmt.Sprintf("%s panicked: %v; %s", op, v, desc2()) })
+		}
+		return false
+	}
+	df2OK := func(op string, df2 [][]int) {
+		for v := 0; v <= k; v++ {
+			ok := v < len(df2)
+			if ok && v < k {
+				set, _ := sc.sortedSet(df2[v])
+				ok = len(set) == 1 && set[0] == (v+1)%k
+			} else if ok {
+				ok = len(df2[v]) == 0
+			}
+			if !ok {
+				viol("second-graph-DomFrontier", func() string {
+					if v >= len(df2) {
+						return fmt.Sprintf("%s returned %d sets, node %d has none; %s", op, len(df2), v, desc2())
+					}
+					return fmt.Sprintf("%s[%d]=%v, the definition gives [%d] for a ring node (it dominates only itself, its ring successor has the hub as second predecessor) and [] for the hub; %s", op, v, c19Short(df2[v]), (v+1)%k, desc2())
+				})
+				return
+			}
+		}
+	}
+	var idom2 []int
+	if call2("IDom(second graph)", func() { idom2 = graphalg.IDom(g2, hub) }) {
+		ok := len(idom2) == k+1
+		for v := 0; ok && v <= k; v++ {
+			ok = (v < k && idom2[v] == hub) || (v == k && idom2[v] == -1)
+		}
+		if !ok {
+			viol("second-graph-IDom", func() string {
+				return fmt.Sprintf("IDom=%v, want %d for every ring node (the hub is its predecessor) and -1 for the hub; %s", c19Short(idom2), hub, desc2())
+			})
+		} else {
+			var df2 [][]int
+			if call2("DomFrontier(second graph, idom)", func() { df2 = graphalg.DomFrontier(g2, hub, idom2) }) {
+				df2OK("DomFrontier(g2, hub, idom)", df2)
+			}
+			var tree2 *graphalg.DomTree
+			msg2 := ""
+			if call2("Dom(second graph)", func() {
+				tree2 = graphalg.Dom(idom2)
+				if tree2 == nil {
+					msg2 = "Dom returned nil"
+					return
+				}
+				kids := tree2.Out(hub)
+				set, dup := sc.sortedSet(kids)
+				bad := dup || len(set) != k
+				for i := 0; !bad && i < k; i++ {
+					bad = set[i] != i
+				}
+				if bad {
+					msg2 = fmt.Sprintf("Out(%d)=%v, want every ring node 0..%d", hub, c19Short(kids), k-1)
+					return
+				}
+				for v := 0; v < k; v++ {
+					if d, o := tree2.IDom(v), tree2.Out(v); d != hub || len(o) != 0 {
+						msg2 = fmt.Sprintf("IDom(%d)=%d, Out(%d)=%v, want %d and no children", v, d, v, c19Short(o), hub)
+						return
+					}
+				}
+			}) && msg2 != "" {
+				viol("second-graph-Dom", func() string { return "Dom(idom of the second graph): " + msg2 + "; " + desc2() })
+			}
+			w.EvalN("DomTree.IDom/In/Out", int64(2*k+1))
+		}
+	}
+	var df2 [][]int
+	if call2("DomFrontier(second graph, nil)", func() { df2 = graphalg.DomFrontier(g2, hub, nil) }) {
+		df2OK("DomFrontier(g2, hub, nil)", df2)
+	}
+	if tripped {
+		return
+	}
+
+	after := fmt.Sprintf("after the last library call of the case (%d further root queries on the first graph, then IDom, DomFrontier, Dom, DomFrontier(nil) on a second graph of %d nodes)", step, k+1)
+	if h.idom != nil && !eqIntsC19(h.idom, h.wantIdom) {
+		stale("IDom-result-changed-by-later-calls", func() string {
+			return fmt.Sprintf("the slice IDom(g, %d) returned was idom*=%v when it was returned and reads %v %s; %s", h.root, c19Short(h.wantIdom), c19Short(h.idom), after, c19Describe(c))
+		})
+	}
+	for pass, name := range [2]string{"DomFrontier(g, root, idom)", "DomFrontier(g, root, nil)"} {
+		df := h.df[pass]
+		if df == nil {
+			continue
+		}
+		if x, short := sc.dfCompare(w, df, h.wantDF, h.reach, h.root, h.carve, false); x >= 0 {
+			stale("DomFrontier-result-changed-by-later-calls", func() string {
+				now := "is gone"
+				if !short {
+					now = fmt.Sprintf("reads %v", c19Short(df[x]))
+				}
+				return fmt.Sprintf("the result of %s with root %d agreed with the definition when it was returned; %s the set of node %d %s, the definition gives %v; idom*=%v; %s", name, h.root, after, x, now, h.wantDF[x], c19Short(h.wantIdom), c19Describe(c))
+			})
+		}
+	}
+	if tree := h.tree; tree != nil {
+		sc.children(h.wantIdom)
+		msg := ""
+		look := func(v int, out, in []int, idom int) string {
+			kids := sc.kidsFlat[sc.kidsStart[v]:sc.kidsStart[v+1]]
+			set, dup := sc.sortedSet(out)
+			bad := dup || len(set) != len(kids)
+			for i := 0; !bad && i < len(set); i++ {
+				bad = set[i] != kids[i]
+			}
+			if bad {
+				return fmt.Sprintf("Out(%d) reads %v, want the children %v", v, c19Short(out), kids)
+			}
+			if p := h.wantIdom[v]; idom != p {
+				return fmt.Sprintf("IDom(%d)=%d, want %d", v, idom, p)
+			} else if (p >= 0 && (len(in) != 1 || in[0] != p)) || (p < 0 && !(len(in) == 0 || (len(in) == 1 && in[0] == -1))) {
+				return fmt.Sprintf("In(%d) reads %v, parent in idom* is %d", v, in, p)
+			}
+			return ""
+		}
+		p, v := mon.Call(func() {
+			if nn := tree.NumNodes(); nn != n {
+				msg = fmt.Sprintf("NumNodes()=%d, want %d", nn, n)
+				return
+			}
+			for v := 0; v < n; v++ {
+				if m := look(v, h.outs[v], h.ins[v], h.wantIdom[v]); m != "" {
+					msg = "the slices it handed out when it was first asked: " + m
+					return
+				}
+			}
+			for v := 0; v < n; v++ {
+				if m := look(v, tree.Out(v), tree.In(v), tree.IDom(v)); m != "" {
+					msg = "asked again: " + m
+					return
+				}
+			}
+		})
+		w.EvalN("DomTree.IDom/In/Out", int64(3*n))
+		w.EvalN("DomTree.NumNodes", 1)
+		if p {
+			viol("panic-DomTree", func() string {
+				return fmt.Sprintf("inspecting Dom(%s) %s panicked: %v; idom*=%v; %s", h.what, after, v, c19Short(h.wantIdom), c19Describe(c))
+			})
+		} else if msg != "" {
+			stale("DomTree-changed-by-later-calls", func() string {
+				return fmt.Sprintf("Dom(%s) for root %d was the inversion of idom*=%v when it was built and asked (twice); %s: %s; %s", h.what, h.root, c19Short(h.wantIdom), after, msg, c19Describe(c))
+			})
 		}
 	}
 }
@@ -2059,15 +2619,38 @@ func c19GenLarge(rng *mon.Rand, i int) (c19Case, string) {
 
 // ---- run ------------------------------------------------------------------------
 
+// c19WalkSelfTest: the definitional walk on two graphs whose orders are written
+// down by hand (a tree with an inner fork; a graph with a cross edge, a back
+// edge, a self-loop and an unreachable node).
+func c19WalkSelfTest() error {
+	var d ref.DFSWalk
+	for _, t := range []struct {
+		out       [][]int
+		root      int
+		pre, post []int
+	}{
+		{[][]int{{2, 1}, {4, 3}, {}, {5}, {}, {}}, 0, []int{0, 2, 1, 4, 3, 5}, []int{2, 4, 5, 3, 1, 0}},
+		{[][]int{{1, 2}, {3, 1}, {3, 0}, {}, {0}}, 0, []int{0, 1, 3, 2}, []int{3, 1, 2, 0}},
+		{[][]int{{}}, 0, []int{0}, []int{0}},
+	} {
+		if ok := d.Run(len(t.out), t.root, func(v int) []int { return t.out[v] }); !ok || !eqIntsC19(d.Pre, t.pre) || !eqIntsC19(d.Post, t.post) {
+			return fmt.Errorf("DFSWalk on %v from %d: pre %v post %v, want %v and %v", t.out, t.root, d.Pre, d.Post, t.pre, t.post)
+		}
+	}
+	return nil
+}
+
 func c19Run(r *mon.Run) {
 	maxN := r.Pick(4, 5)
-	r.Rule(fmt.Sprintf("every digraph (adjacency matrix, self-loops included) on 1..%d nodes with every root, successor/predecessor list order varied by case; random matrices on 5..8 nodes; random multigraphs up to 40 nodes: G(n,p) from tree-like to complete, structured (reducible) control flow, planted two-entry cycles and bidirectional chains entered from both ends (one sweep per chain node), each optionally with an unreachable region feeding reachable joins, parallel edges, self-loops, chosen root in-degree, random node numbering and list order; sparse graphs with 1025..2160 nodes. Depth and weight: bidirectional chains as long as the 40-node limit allows (and some with 60..200 nodes) at random and, deterministically, every maximal chain variant for the sizes 33..40, 64, 65, 100, 200 (the number of sweeps an iterative dataflow solution of the reference's own needs is recorded as a class); paths root->1->2->... of up to 40 nodes (dominator tree as deep as the graph) and of 1040..1600 nodes, with backward, parallel and self edges and unreachable feeders; small graphs with edges repeated 50..300 times, joins with 200..700 predecessor entries, unreachable nodes pointing at a join 10..100 times, and joins with 200..330 distinct predecessors. Histories: every digraph on 2..%d nodes with every ordered pair of distinct roots, and random graphs of all the kinds above with 2..6 roots, queried one after another on one graph object that is never rebuilt. Storage of the lists the library sees varied by case: exact capacity, back-to-back sub-slices of one array (capacity reaching into the next list), the same with canary cells between the lists. Every query: IDom, then DomFrontier on the slice IDom returned (a copy of idom* if that was wrong), then Dom on that same slice as DomFrontier left it (and Dom(idom*) if it was changed), then DomFrontier with nil; on every other case DomFrontier and Dom get a caller-made copy of that slice (own array, spare capacity filled with junk) instead; every tree Dom returns is asked twice (IDom/Out/In ascending, then In/Out/IDom descending); on every fourth case the library sees the graph through a second BiGraph implementation (struct value, nil for empty lists, a fresh copy of the list on every call); all through a counting BiGraph and all judged against the reference for the graph as the caller built it; the graph object is never repaired, and once a call has changed its lists it is queried with up to 8 further roots. Non-trivial: every case hits a root-in-degree and a layout class; distinct by hash of (n, roots, layout, all lists).", maxN, r.Pick(3, 4)))
+	r.Rule(fmt.Sprintf("every digraph (adjacency matrix, self-loops included) on 1..%d nodes with every root, successor/predecessor list order varied by case; random matrices on 5..8 nodes; random multigraphs up to 40 nodes: G(n,p) from tree-like to complete, structured (reducible) control flow, planted two-entry cycles and bidirectional chains entered from both ends (one sweep per chain node), each optionally with an unreachable region feeding reachable joins, parallel edges, self-loops, chosen root in-degree, random node numbering and list order; sparse graphs with 1025..2160 nodes. Depth and weight: bidirectional chains as long as the 40-node limit allows (and some with 60..200 nodes) at random and, deterministically, every maximal chain variant for the sizes 33..40, 64, 65, 100, 200 (the number of sweeps an iterative dataflow solution of the reference's own needs is recorded as a class); paths root->1->2->... of up to 40 nodes (dominator tree as deep as the graph) and of 1040..1600 nodes, with backward, parallel and self edges and unreachable feeders; small graphs with edges repeated 50..300 times, joins with 200..700 predecessor entries, unreachable nodes pointing at a join 10..100 times, and joins with 200..330 distinct predecessors. Histories: every digraph on 2..%d nodes with every ordered pair of distinct roots, and random graphs of all the kinds above with 2..6 roots, queried one after another on one graph object that is never rebuilt. Storage of the lists the library sees varied by case: exact capacity, back-to-back sub-slices of one array (capacity reaching into the next list), the same with canary cells between the lists. Every query: IDom, then DomFrontier on the slice IDom returned (a copy of idom* if that was wrong), then Dom on that same slice as DomFrontier left it (and Dom(idom*) if it was changed), then DomFrontier with nil; on every other case DomFrontier and Dom get a caller-made copy of that slice (own array, spare capacity filled with junk) instead; every tree Dom returns is asked twice (IDom/Out/In ascending with the slices kept as handed out and looked at only after the last of these calls, then In/Out/IDom descending with every answer looked at at once, then the kept slices once more), and, whenever a node with several children has a child with children and on every fourth other tree, the library's PreOrder and PostOrder are run over it from the root and compared with the definitional depth-first orders of idom*'s inversion in the adjacency order the tree reported to that traversal; on every 16th case the slice IDom returned, both frontier results and the tree for the first root are compared once more after the last library call of the case, a round of IDom/DomFrontier/Dom/DomFrontier(nil) on a second, bigger graph (hub + ring, dominators in closed form) made in between; on every fourth case the library sees the graph through a second BiGraph implementation (struct value, nil for empty lists, a fresh copy of the list on every call); all through a counting BiGraph and all judged against the reference for the graph as the caller built it; the graph object is never repaired, and once a call has changed its lists it is queried with up to 8 further roots. Non-trivial: every case hits a root-in-degree and a layout class; distinct by hash of (n, roots, layout, all lists).", maxN, r.Pick(3, 4)))
 	r.Assume("reference: dominance by node deletion + reachability (bitmask version <=64 nodes, boolean-matrix version above), cross-checked at start-up against each other, against a dataflow fixed point and against three graphs from the literature; on every graph of 6 or more nodes idom* is also compared with an iterative dataflow solution written for the reference (a difference makes the run inconclusive)",
 		"DomFrontier lists are compared as sets (duplicates are counted, not judged); sets of unreachable nodes are not judged; membership of the root is not compared when the root has exactly one in-edge",
 		"DomTree.In(v) for a node without immediate dominator may be empty or [-1]",
 		"a non-terminating loop that never calls into the graph can only trip the process watchdog (inconclusive)",
 		"writes of the library into the graph's lists or into the idom argument are not judged by themselves (only noted): judged are the values later calls return for the same graph object (kind history-after-modification) and the tree Dom builds from the slice that went through DomFrontier (kind pipeline-Dom)",
-		"writes into spare capacity that belongs to no list (canary cells) are noted, not judged")
+		"writes into spare capacity that belongs to no list (canary cells) are noted, not judged",
+		"a DomTree is used as the graph.BiGraph it is: the slices Out and In hand out must stay valid while the tree is used (the library's own traversals assume that of any Graph); the order of the children is free (compared as sets; the traversal orders are judged in the order the tree itself reported to the traversal, and not at all should a tree report two different orders for one node)",
+		"what IDom, DomFrontier and Dom returned belongs to the caller: it must read the same after later calls of the library, on this graph or another")
 	r.Gate("join-with-unreachable-pred", "irreducible-loop", "root-in-0", "root-in-1(carve-out)", "root-in>=2",
 		"parallel-edges-into-join", "reachable-node-id>=1024", "unreachable-nodes", "self-loop", "root-in-some-frontier",
 		"structured", "planted-two-entry-cycle", "two-entry-bidirectional-chain", "density-tree-like", "density-complete",
@@ -2081,10 +2664,20 @@ func c19Run(r *mon.Run) {
 		"chain-maximal", "chain-of-60..200-nodes", "long-path", "long-path-large", "heavy-multi-edge", "heavy-in-degree-distinct-preds",
 		"dataflow-fixpoint-needs>=32-sweeps", "dataflow-fixpoint-needs>=38-sweeps", "dataflow-fixpoint-needs>=64-sweeps",
 		"dominator-tree-depth>=39", "dominator-tree-depth>=1000",
-		"edge-multiplicity>=50", "in-degree>=200", "join-with>=32-unreachable-pred-edges")
+		"edge-multiplicity>=50", "in-degree>=200", "join-with>=32-unreachable-pred-edges",
+		// round 4
+		"domtree:>=2-nodes-with-children(child-lists-held-across-later-Out-calls)",
+		"domtree:node-with>=2-children-one-of-them-with-children(walk-holds-a-list-across-Out-calls)",
+		"domtree-traversal:PreOrder,PostOrder-over-the-DomTree",
+		"recheck:first-root's-results-compared-again-after-the-last-call(second-graph-in-between)")
 
 	st := mon.NewRand(0xc19, 1)
 	if err := ref.DomSelfTest(st.Uint64, r.Pick(3000, 20000)); err != nil {
+		r.Inconclusive("reference self-test failed: " + err.Error())
+		return
+	}
+
+	if err := c19WalkSelfTest(); err != nil {
 		r.Inconclusive("reference self-test failed: " + err.Error())
 		return
 	}
@@ -2140,7 +2733,7 @@ func c19Run(r *mon.Run) {
 		for root := 0; root < n; root++ {
 			c := sc.matrixCase(n, m, root, variant)
 			c.Layout = rng.Intn(3)
-			c.Mode = c19RandMode(rng)
+			c.Mode = c19RandMode(rng) | c19RecheckOf(uint(i)*11+uint(root))
 			c19Judge(w, c, sc, true)
 		}
 	})
@@ -2223,7 +2816,7 @@ func c19Run(r *mon.Run) {
 			c.Roots[k-1] = c.Root // back to the first root
 		}
 		c.Layout = rng.Intn(3)
-		c.Mode = c19RandMode(rng)
+		c.Mode = c19RandMode(rng) | c19RecheckOf(uint(i))
 		c19Judge(w, c, sc, true)
 	})
 
@@ -2231,7 +2824,7 @@ func c19Run(r *mon.Run) {
 		r.Parallel(class, count, func(w *mon.W, i int) {
 			c, label := f(w.Rng, i)
 			c.Layout = w.Rng.Intn(3)
-			c.Mode = c19RandMode(w.Rng)
+			c.Mode = c19RandMode(w.Rng) | c19RecheckOf(uint(i))
 			w.Hit(label)
 			c19Judge(w, c, nil, true)
 		})
@@ -2268,7 +2861,10 @@ func c19Run(r *mon.Run) {
 	r.ParallelN("large-ids", r.Pick(32, 96), 4, func(w *mon.W, i int) {
 		c, label := c19GenLarge(w.Rng, i)
 		c.Layout = i % 3
-		c.Mode = c19ModeOf(uint(i))
+		c.Mode = c19ModeOf(uint(i)) &^ c19Recheck
+		if i%8 == 3 {
+			c.Mode |= c19Recheck
+		}
 		w.Hit(label)
 		c19Judge(w, c, nil, true)
 	})
@@ -2276,6 +2872,9 @@ func c19Run(r *mon.Run) {
 		c, label := c19GenLongPath(w.Rng, i, w.Rng.Range(1040, 1600))
 		c.Layout = i % 3
 		c.Mode = i % 4
+		if i%4 == 1 {
+			c.Mode |= c19Recheck
+		}
 		w.Hit(label)
 		c19Judge(w, c, nil, true)
 	})
